@@ -307,27 +307,33 @@ def run(ck):
             # that shows up as 1e-11 of the peak height
             if odd > 1e-9 or abs(d[N]) > 1e-9 * numpy.abs(d).max():
                 ck.fail("odd:spectral-density", "spectral density is not odd in frequency", inp, float(odd))
-            ft = sd.get_FTCorrelationFunction()
-            c = numpy.real(numpy.array(ft.data))
-            with energy_units("int"):
-                w = numpy.array(ft.axis.data)
-            kT = kB_int * T
-            pos, neg = c[N + 1:], c[1:N][::-1]
-            wp = w[N + 1:]
-            # compare in the form C(-w) e^{+w/kT} = C(w) only where the exponential is representable, else C(-w) <= tiny
-            x = wp / kT
-            ok = x < 600
-            err = numpy.abs(neg[ok] - numpy.exp(-x[ok]) * pos[ok]) / numpy.abs(c).max()
-            ck.resid("KMS relation |C(-w) - exp(-w/kT) C(w)| / max|C|", err.max())
-            # 1 + 1/tanh(-y) cancels to rounding noise (1e-16 of J) once exp(-2y) < 1e-16: the relative form is meaningful
-            # only where the Boltzmann factor is well above that
-            sel = (numpy.exp(-x[ok]) > 1e-6) & (numpy.abs(pos[ok]) > 1e-6 * numpy.abs(c).max())
-            rel = numpy.abs(neg[ok][sel] / (numpy.exp(-x[ok][sel]) * pos[ok][sel]) - 1.0)
-            if rel.size:
-                ck.resid("KMS relation, relative (exp(-w/kT) > 1e-6)", rel.max())
-            if err.max() > 1e-10 or (rel.size and rel.max() > 1e-6):
-                ck.fail("kms:ftcorr", "Fourier-transformed correlation function violates C(-w) = exp(-w/kT) C(w)", inp,
-                        [float(err.max()), float(rel.max()) if rel.size else None])
+            # the relation at the temperature of the parameters, then (on the same object) at an explicitly requested other one
+            T2 = {77.0: 300.0, 300.0: 77.0}.get(T, T + 100.0)
+            for Tuse, ft_call, ktag in ((T, lambda: sd.get_FTCorrelationFunction(), "kms:ftcorr"),
+                                        (T2, lambda: sd.get_FTCorrelationFunction(temperature=T2), "kms:ftcorr:explicit-temperature")):
+                if Tuse != T and trial % 2 == 0:
+                    continue
+                ft = ft_call()
+                c = numpy.real(numpy.array(ft.data))
+                with energy_units("int"):
+                    w = numpy.array(ft.axis.data)
+                kT = kB_int * Tuse
+                pos, neg = c[N + 1:], c[1:N][::-1]
+                wp = w[N + 1:]
+                # compare in the form C(-w) e^{+w/kT} = C(w) only where the exponential is representable, else C(-w) <= tiny
+                x = wp / kT
+                ok = x < 600
+                err = numpy.abs(neg[ok] - numpy.exp(-x[ok]) * pos[ok]) / numpy.abs(c).max()
+                ck.resid("KMS relation |C(-w) - exp(-w/kT) C(w)| / max|C|", err.max())
+                # 1 + 1/tanh(-y) cancels to rounding noise (1e-16 of J) once exp(-2y) < 1e-16: the relative form is meaningful
+                # only where the Boltzmann factor is well above that
+                sel = (numpy.exp(-x[ok]) > 1e-6) & (numpy.abs(pos[ok]) > 1e-6 * numpy.abs(c).max())
+                rel = numpy.abs(neg[ok][sel] / (numpy.exp(-x[ok][sel]) * pos[ok][sel]) - 1.0)
+                if rel.size:
+                    ck.resid("KMS relation, relative (exp(-w/kT) > 1e-6)", rel.max())
+                if err.max() > 1e-10 or (rel.size and rel.max() > 1e-6):
+                    ck.fail(ktag, "Fourier-transformed correlation function violates C(-w) = exp(-w/kT) C(w) at T = %g K" % Tuse, dict(inp, T_requested=Tuse),
+                            [float(err.max()), float(rel.max()) if rel.size else None])
         except Exception as e:
             ck.fail("raises:spectral-density", "raised %r" % (e,), inp)
     return ck.finish()
